@@ -175,6 +175,7 @@ type Action struct {
 	PIDPool    int     `json:"pid_pool,omitempty"`   // >0: use the lowest identifier in 1..PIDPool that no unfinished own publish uses (skip if none)
 	Pad        int     `json:"pad,omitempty"`        // payload is padded with this many '.' bytes after the tag
 	Limit      int     `json:"limit,omitempty"`      // >0: skip a QoS>0 publish if the connection already has this many unfinished own QoS>0 publishes
+	ThenDrop   bool    `json:"then_drop,omitempty"`  // reset the connection right behind the packet: the broker reads and processes it, its answer can no longer be written
 
 	// ack: Index selects among the connection's outstanding inbound messages (oldest first, modulo)
 	Index   int    `json:"index,omitempty"`
@@ -1056,6 +1057,10 @@ func (r *Run) doPublish(s *Step, a *Action) {
 	}
 	s.Peer, s.Sent, s.Tag = p.ID, pk, tag
 	r.send(p, pk, refmqtt.Style{})
+	if a.ThenDrop {
+		p.ClosedByHarness = true
+		p.Link.Drop()
+	}
 }
 
 func (r *Run) doAck(s *Step, a *Action) {
@@ -1349,6 +1354,9 @@ func (a Action) String() string {
 		}
 		if a.MsgExpiry != nil {
 			s += fmt.Sprintf(" msgexpiry=%d", *a.MsgExpiry)
+		}
+		if a.ThenDrop {
+			s += " then-drop"
 		}
 		return s
 	case "ack", "pubrel":
